@@ -181,7 +181,9 @@ WF_NATIVE = {
     "text": ["s", "", 5, 1.5, True, None, datetime.datetime(2020, 1, 2)],
     "onoff": [True, False, 0, 1, 0.0, 1.0, -0.0, "true"],
     "datetime": [datetime.datetime(2020, 1, 2), datetime.datetime(2020, 1, 2, 3, 4, 5, 6), "2020-01-02", "-"],
-    "num": [0, 1, -3, 1.5, float("nan"), float("inf"), True, False, None, 10 ** 20, "1.5", "-", -0.0],
+    "num": [0, 1, -3, 1.5, float("nan"), float("inf"), True, False, None, 10 ** 20, "1.5", "-", -0.0,
+            # doubles whose shortest repr has 16-17 significant digits: compared bit for bit
+            1 / 3, math.pi, 0.1 + 0.2, 2.0 ** 53 + 2.0, 960.3363318270713, 5e-324, 1.7976931348623157e308],
 }
 
 
